@@ -221,6 +221,11 @@ class Section(Error):
             # Use assign dict to get field name, with schema field_name as fallback
             resolved_field = self.assign.get(command, field_name)
             apply_action(target, operation, key, self.scope, name, command, insert, resolved_field)
+            # (looked at here: the flow parsers are generators which read their tokens when the action is applied)
+            leftover = self.parser.tokeniser.peek()
+            if leftover:
+                # the parser of the keyword took what it needed and the rest of the statement was dropped unread
+                return self.error.set(f"unexpected '{leftover}' after the value of '{command}'")
             return True
         except (ValueError, OSError) as exc:
             # OSError is what inet_pton answers a mistyped address with (IP.pton, IP.from_string): it is a refusal
